@@ -292,6 +292,8 @@ def run_ed_block(inst):
                 bands = list(range(-1, maxband + 1)) if s <= t else list(range(0, maxband + 1)) + [-1]
             else:
                 bands = list(range(maxband, -1, -1)) + [-1] if s <= t else [0, -1] + list(range(1, maxband + 1))
+            # band widths far beyond the string lengths, up to the largest value the parameter accepts
+            bands = bands + ([1000, 2**31 - 2, 2**31 - 1] if kind == "str" else [2**31 - 1, 2**30])
             for band in bands:
                 n += 1
                 got = edit_distance(a, b, band) if band != -1 or kind == "bytes" else edit_distance(a, b)
